@@ -13,6 +13,7 @@ import (
 	"path/filepath"
 	"sort"
 	"strings"
+	"sync"
 	"testing"
 	"time"
 
@@ -335,6 +336,99 @@ var persistAcls = map[int][]*security.AccessControl{
 
 // TestAuthzPersist executes client / ACL management sequences with restarts (spec/Authz.tla, PSpec)
 // on the real ServiceCore and compares the registered clients and ACLs at the end.
+// one RSA key per (client, key version), made on first use
+var (
+	clientKeyMu sync.Mutex
+	clientKeys  = map[string]*rsa.PrivateKey{}
+)
+
+func clientKey(c string, kv int) *rsa.PrivateKey {
+	clientKeyMu.Lock()
+	defer clientKeyMu.Unlock()
+	id := fmt.Sprintf("%s/%d", c, kv)
+	if k, ok := clientKeys[id]; ok {
+		return k
+	}
+	k, err := rsa.GenerateKey(rand.Reader, 2048)
+	if err != nil {
+		panic(err)
+	}
+	clientKeys[id] = k
+	return k
+}
+
+func clientKeyPEM(c string, kv int) string {
+	pem, _ := security.ExportRsaPublicKeyAsPem(&clientKey(c, kv).PublicKey)
+	return pem
+}
+
+// clientAssertion is what a client sends to POST /security/token: a JWT with its id as subject, signed by key
+// version kv of client c, in the given shape.
+func clientAssertion(c string, kv int, shape, nodeID string) string {
+	claims := jwt.RegisteredClaims{ExpiresAt: jwt.NewNumericDate(time.Now().Add(time.Minute)), ID: fmt.Sprintf("a-%d", time.Now().UnixNano()),
+		Subject: c, Audience: jwt.ClaimStrings{"node:" + nodeID}}
+	switch shape {
+	case "expired":
+		claims.ExpiresAt = jwt.NewNumericDate(time.Now().Add(-time.Minute))
+	case "notyet":
+		claims.NotBefore = jwt.NewNumericDate(time.Now().Add(10 * time.Minute))
+	case "hs256":
+		s, _ := jwt.NewWithClaims(jwt.SigningMethodHS256, claims).SignedString([]byte(clientKeyPEM(c, kv)))
+		return s
+	case "none":
+		s, _ := jwt.NewWithClaims(jwt.SigningMethodNone, claims).SignedString(jwt.UnsafeAllowNoneSignatureType)
+		return s
+	case "garbage":
+		return "not.a.jwt"
+	}
+	s, err := jwt.NewWithClaims(jwt.SigningMethodRS256, claims).SignedString(clientKey(c, kv))
+	if err != nil {
+		panic(err)
+	}
+	return s
+}
+
+// requestToken: a panic counts as a refusal (the route's recover middleware answers 500)
+func requestToken(core *security.ServiceCore, assertion string) (tok, refusal string) {
+	defer func() {
+		if rc := recover(); rc != nil {
+			tok, refusal = "", fmt.Sprint("panic: ", rc)
+		}
+	}()
+	t, err := core.ValidateClientJWTMakeJWTAccessToken(assertion)
+	if err != nil {
+		return "", err.Error()
+	}
+	return t, ""
+}
+
+// checkIssued: a token is issued exactly when the reference says so, and an issued token is signed by the node, names
+// the requester and its role, and expires within the next 16 minutes.
+func checkIssued(core *security.ServiceCore, subject, role string, want bool, tok, refusal string) string {
+	if !want {
+		if tok != "" {
+			return "a token was issued"
+		}
+		return ""
+	}
+	if tok == "" {
+		return "refused: " + refusal
+	}
+	claims := &security.CustomClaims{}
+	parsed, err := jwt.ParseWithClaims(tok, claims, func(*jwt.Token) (interface{}, error) { return core.GetActiveKeyPair().PublicKey, nil })
+	if err != nil || !parsed.Valid {
+		return fmt.Sprint("issued token does not verify with the node key: ", err)
+	}
+	node := "node:" + core.NodeInfo.NodeID
+	if claims.Subject != subject || fmt.Sprint(claims.Roles) != fmt.Sprint([]string{role}) || claims.Issuer != node || fmt.Sprint(claims.Audience) != fmt.Sprint([]string{node}) {
+		return fmt.Sprintf("issued token: subject %q roles %v issuer %q audience %v", claims.Subject, claims.Roles, claims.Issuer, claims.Audience)
+	}
+	if claims.ExpiresAt == nil || claims.ExpiresAt.Before(time.Now()) || claims.ExpiresAt.After(time.Now().Add(16*time.Minute)) {
+		return fmt.Sprint("issued token expires at ", claims.ExpiresAt)
+	}
+	return ""
+}
+
 func TestAuthzPersist(t *testing.T) {
 	in := os.Getenv("VERIF_TLC_OUT")
 	if in == "" {
@@ -374,6 +468,8 @@ func TestAuthzPersist(t *testing.T) {
 				C  string `json:"c"`
 				K  int    `json:"k"`
 				Kv int    `json:"kv"`
+				Sh string `json:"sh"`
+				Ok bool   `json:"ok"`
 			} `json:"steps"`
 			Reg  json.RawMessage `json:"reg"`
 			Acls json.RawMessage `json:"acls"`
@@ -398,6 +494,7 @@ func TestAuthzPersist(t *testing.T) {
 		env := NewEnv(dir)
 		env.SecurityStorageLocation = filepath.Join(dir, "security")
 		env.NodeID = "verifnode"
+		env.AdminUserName, env.AdminPassword = "admin", "secret"
 		if err := writeNodeKeys(env.SecurityStorageLocation); err != nil {
 			t.Fatal(err)
 		}
@@ -409,10 +506,34 @@ func TestAuthzPersist(t *testing.T) {
 			return c.NodeInfo.NodeID + "/" + c.NodeInfo.KeyPairs[0].PublicKey.N.String()[:24]
 		}
 		firstNode := nodeKey(core)
+		r := Result{Idx: idx, Adapter: "security"}
 		for _, st := range c.Steps {
 			switch st.A {
+			case "assert":
+				// a token request with a client assertion (what POST /security/token hands to the core)
+				sum.Checks++
+				tok, refusal := requestToken(core, clientAssertion(st.C, st.Kv, st.Sh, env.NodeID))
+				if problem := checkIssued(core, st.C, "client", st.Ok, tok, refusal); problem != "" {
+					r.Divs = append(r.Divs, Divergence{Kind: "token-issuance", Adapter: "security", Query: c.Steps,
+						Expected: map[string]any{"client": st.C, "key": st.Kv, "assertion": st.Sh, "issued": st.Ok}, Actual: problem})
+				}
+			case "admin":
+				sum.Checks++
+				secret := "secret"
+				if !st.Ok {
+					secret = "wrong"
+				}
+				tok, err := core.MakeAdminJWT("admin", secret)
+				refusal := ""
+				if err != nil {
+					refusal = err.Error()
+				}
+				if problem := checkIssued(core, "admin", "admin", st.Ok, tok, refusal); problem != "" {
+					r.Divs = append(r.Divs, Divergence{Kind: "token-issuance", Adapter: "security", Query: c.Steps,
+						Expected: map[string]any{"admin": true, "issued": st.Ok}, Actual: problem})
+				}
 			case "register":
-				core.RegisterClient(&security.ClientInfo{ClientID: st.C, PublicKey: []byte(fmt.Sprintf("key-%s-v%d", st.C, st.Kv))})
+				core.RegisterClient(&security.ClientInfo{ClientID: st.C, PublicKey: []byte(clientKeyPEM(st.C, st.Kv))})
 			case "unregister":
 				core.RegisterClient(&security.ClientInfo{ClientID: st.C, Deleted: true})
 			case "setacl":
@@ -423,7 +544,6 @@ func TestAuthzPersist(t *testing.T) {
 				core = security.NewServiceCore(env)
 			}
 		}
-		r := Result{Idx: idx, Adapter: "security"}
 		// the node keeps its identity (node id and key pair) across restarts
 		sum.Checks++
 		if got := nodeKey(core); got != firstNode {
@@ -435,7 +555,7 @@ func TestAuthzPersist(t *testing.T) {
 			gotReg = append(gotReg, k+"="+string(ci.PublicKey))
 		}
 		for k, kv := range expReg {
-			wantReg = append(wantReg, fmt.Sprintf("%s=key-%s-v%d", k, k, kv))
+			wantReg = append(wantReg, k+"="+clientKeyPEM(k, kv))
 		}
 		sort.Strings(gotReg)
 		sort.Strings(wantReg)
